@@ -35,3 +35,12 @@ def check(run, only=None):
         o3 = fw.merge_worker_results(results, "")
         o3["rule"] = None
         run.add_bounded(o3)
+    if only in (None, "P"):
+        from vlib.props import pcommon
+        from vlib.companions import persistc
+        import contracts.persist as cp
+        pcommon.add_proof(run, "C12", cp.PERSIST_C12, [persistc.run],
+                          "loading a cached table: the actions of one cell are rebuilt record by record -- the action code as "
+                          "written, the state with the recorded id or None when the record has none (never the state of "
+                          "another record), the production likewise (the decoding loop of table_from_serializable, a "
+                          "P-block; Action.__init__)")
